@@ -45,14 +45,16 @@ type Action struct {
 
 // TxObs is what was observed and predicted for one transaction.
 type TxObs struct {
-	Tx      model.Tx `json:"tx"`
-	Code    uint32   `json:"code"`
-	Space   string   `json:"codespace,omitempty"`
-	Log     string   `json:"log,omitempty"`
-	AnteOK  bool     `json:"ante_ok"`
-	Pred    string   `json:"model"` // "ok" | "fail:<reason>" | "ante"
-	GasUsed int64    `json:"gas_used"`
-	Res     mc.TxRes `json:"-"`
+	Tx        model.Tx `json:"tx"`
+	Code      uint32   `json:"code"`
+	Space     string   `json:"codespace,omitempty"`
+	Log       string   `json:"log,omitempty"`
+	AnteOK    bool     `json:"ante_ok"`
+	Pred      string   `json:"model"` // "ok" | "fail:<reason>" | "ante"
+	GasUsed   int64    `json:"gas_used"`
+	GasWanted int64    `json:"gas_wanted"`
+	Data      string   `json:"data,omitempty"`
+	Res       mc.TxRes `json:"-"`
 }
 
 type StepObs struct {
@@ -209,6 +211,7 @@ func (e *Exec) deliver(tx model.Tx) (TxObs, []Disc, bool) {
 	}
 	r := w.DeliverTx(bz)
 	obs.Res, obs.Code, obs.Space, obs.Log, obs.GasUsed = r, r.Code, r.Codespace, firstLine(r.Log), r.GasUsed
+	obs.GasWanted, obs.Data = r.GasWanted, fmt.Sprintf("%x", r.Data)
 	post := StoresDump(w)
 	e.TxEvents = append(e.TxEvents, r.Events)
 	e.PostBal = e.ReadBalances()
